@@ -170,6 +170,26 @@ theorem wrapper_transparent (boot : Nat → Bool) (c : Cfg) (hn : 0 < c.n) (s : 
 theorem wrapper_oneshot_counterexample :
     wrapperInput [1, 2, 3] = [1, 2, 3] ∧ wrapperInputStale [1, 2, 3] = [2, 3] := wrapper_oneshot_counterexample'
 
+/-! ### independent steps commute (justifies the sleep-set reduction of the schedule enumeration) -/
+
+/-- two steps related by `indep` that are both possible in a state can be taken in either order: each stays possible
+after the other and both orders reach the same state -/
+theorem step_comm (c : Cfg) (s : State) (a b : Action) (hi : indep a b = true)
+    (ha : enabled c s a = true) (hb : enabled c s b = true) :
+    enabled c (step c s a) b = true ∧ enabled c (step c s b) a = true ∧ step c (step c s a) b = step c (step c s b) a :=
+  step_comm' c s a b hi ha hb
+
+/-- hence schedules that differ only by swapping adjacent independent steps reach the same state (same outcome): it is
+enough to enumerate one representative per equivalence class -/
+theorem swap_adjacent (c : Cfg) (s : State) (a b : Action) (rest : List Action) (hi : indep a b = true)
+    (ha : enabled c s a = true) (hb : enabled c s b = true) :
+    runTrace c s (a :: b :: rest) = runTrace c s (b :: a :: rest) := swap_adjacent' c s a b rest hi ha hb
+
+/-- a concrete instance: a worker's put and the loader's put are independent and both enabled; a worker's put and the
+caller's get (both on the out-queue) are not related by `indep` -/
+example : indep (.wPut 0) .loadPut = true ∧ enabled commCfg commState (.wPut 0) = true ∧ enabled commCfg commState .loadPut = true
+      ∧ indep (.wPut 0) .cGet = false := step_comm_example'
+
 /-! ### the hypotheses are satisfiable: complete schedules observed on the real code
 (logged by the harness from `Multiprocessor.filter` under the controlled scheduler) -/
 
